@@ -70,10 +70,13 @@ def make(kind, prop, quick, thorough, long_every=30):
         long = ctx.tier == "thorough" and idx % long_every == 0
         # scale and hub histories at fixed case numbers (what a run reaches must not hang on one draw)
         big = "scale" if idx == 1 or (ctx.tier == "thorough" and idx % 400 == 7) else "hub" if idx == 2 or (ctx.tier == "thorough" and idx % 400 == 9) else False
-        cfg = history.Cfg(rng, kind, long=long, big=big)
+        # tuple labels (grid coordinates): "any mutually comparable hashable labels" for the plain Hypergraph; the other three
+        # containers read a pair of tuples as (source, target) by design, so this universe is for H only
+        uni = "tuple" if kind == "H" and not big and idx % 25 == 4 else None
+        cfg = history.Cfg(rng, kind, long=long, big=big, uni=uni)
         if kind == "T" and (idx == 3 or (ctx.tier == "thorough" and idx % 400 == 11)):
             # time stamps beyond 2**53 (where a float no longer tells neighbouring integers apart)
-            cfg.time_pool = [0, 1, 2**52, 2**53, 2**53 + 1, 2**53 + 2, 2**60 + 1]
+            cfg.time_pool = [0, 1, 2**52, 2**53, 2**53 + 1, 2**53 + 2, 2**60 + 1, 2**63 - 1, 2**63, 2**64 + 5]
             ctx.event("huge-time-stamps")
         if big:
             ctx.event(big + "-history")
